@@ -532,8 +532,10 @@ theorem inv_step (s : State) (h : Inv s) (l : Label) (hd : l.disciplined = true)
   | timeout o =>
     simp only [step] at hs
     split at hs
-    · simp only [Option.some.injEq, Prod.mk.injEq] at hs; rw [← hs.1]; exact h
     · simp at hs
+    · split at hs
+      · simp only [Option.some.injEq, Prod.mk.injEq] at hs; rw [← hs.1]; exact h
+      · simp at hs
   | closeTopic =>
     simp only [step, Option.some.injEq, Prod.mk.injEq] at hs; rw [← hs.1]
     exact inv_clear s h true s.queueClosed
